@@ -149,7 +149,7 @@ fn op_name(op: &Op) -> &'static str {
         Op::ReplaceChildAt(..) => "replace_child_at_index",
         Op::Rotate(..) => "set_children",
         Op::DropChild(..) => "set_children (one child dropped)",
-        Op::Reparent(..) => "remove_child+add_child",
+        Op::Reparent(..) => "reparent (remove_child+add_child or adopting set_children)",
         Op::Remove(..) => "remove",
         Op::SetCtx(..) => "set_node_context",
         Op::MarkDirty(..) => "mark_dirty",
